@@ -17,7 +17,7 @@
 (***************************************************************************)
 EXTENDS McaCore, Json
 
-CONSTANTS Nets,       \* subset of {"chain2", "branch", "rev", "cycle", "ia", "pl"}
+CONSTANTS Nets,       \* subset of {"chain2", "branch", "rev", "sgn", "cycle", "ia", "iac", "pl"}
           Grid,       \* "quick" | "mid" | "full"
           EmitOn
 VARIABLES nm, env, ph
@@ -43,22 +43,22 @@ Net(n) ==
     CASE n = "chain2" ->
             [vars |-> <<"x1", "x2">>, pars |-> <<"kin", "k1", "k2">>,
              rxns |-> <<Rx("v0", kin, In1), Rx("v1", Mul(k1, x1), X1X2), Rx("v2", Mul(k2, x2), Out2)>>,
-             ss |-> ("x1" :> Div(kin, k1)) @@ ("x2" :> Div(kin, k2)), cons |-> <<>>, init |-> <<>>]
+             ss |-> ("x1" :> Div(kin, k1)) @@ ("x2" :> Div(kin, k2)), cons |-> <<>>, init |-> <<>>, vals |-> <<>>]
       [] n = "branch" ->
             [vars |-> <<"x1", "x2">>, pars |-> <<"kin", "k1", "k2", "k3">>,
              rxns |-> <<Rx("v0", kin, In1), Rx("v1", Mul(k1, x1), X1X2), Rx("v2", Mul(k2, x2), Out2),
                         Rx("v3", Mul(k3, x1), Out1)>>,
-             ss |-> ("x1" :> Div(kin, Add(k1, k3))) @@ ("x2" :> Div(Mul(k1, kin), Mul(Add(k1, k3), k2))), cons |-> <<>>, init |-> <<>>]
+             ss |-> ("x1" :> Div(kin, Add(k1, k3))) @@ ("x2" :> Div(Mul(k1, kin), Mul(Add(k1, k3), k2))), cons |-> <<>>, init |-> <<>>, vals |-> <<>>]
       [] n = "rev" ->
             [vars |-> <<"x1", "x2">>, pars |-> <<"kin", "k1", "km", "k2">>,
              rxns |-> <<Rx("v0", kin, In1), Rx("v1", Sub(Mul(k1, x1), Mul(km, x2)), X1X2), Rx("v2", Mul(k2, x2), Out2)>>,
-             ss |-> ("x1" :> Div(Add(kin, Div(Mul(km, kin), k2)), k1)) @@ ("x2" :> Div(kin, k2)), cons |-> <<>>, init |-> <<>>]
+             ss |-> ("x1" :> Div(Add(kin, Div(Mul(km, kin), k2)), k1)) @@ ("x2" :> Div(kin, k2)), cons |-> <<>>, init |-> <<>>, vals |-> <<>>]
       [] n = "cycle" ->  \* closed loop x1 <-> x2: the total T = x1 + x2 of the STARTING state is conserved, so the
                          \* steady state is a function of the parameters AND of the state the analysis starts from
             [vars |-> <<"x1", "x2">>, pars |-> <<"k1", "k2">>,
              rxns |-> <<Rx("v1", Mul(k1, x1), X1X2), Rx("v2", Mul(k2, x2), X2X1)>>,
              ss |-> ("x1" :> Div(Mul(Sym("T"), k2), Add(k1, k2))) @@ ("x2" :> Div(Mul(Sym("T"), k1), Add(k1, k2))),
-             cons |-> <<[name |-> "T", members |-> <<"x1", "x2">>]>>, init |-> <<>>]
+             cons |-> <<[name |-> "T", members |-> <<"x1", "x2">>]>>, init |-> <<>>, vals |-> <<>>]
       [] n = "ia" ->     \* closed power-law loop whose INITIAL VALUES are assignment rules of parameters:
                          \* x1(0) = frac * T, x2(0) = T - x1(0).  "At the given state" with variables=None is the model's
                          \* initial state computed ONCE: elasticities stay PARTIAL derivatives (state held fixed), so
@@ -66,13 +66,30 @@ Net(n) ==
             [vars |-> <<"x1", "x2">>, pars |-> <<"k1", "k2", "T", "frac">>,
              rxns |-> <<Rx("v1", Mul(k1, Pow(x1, 2)), X1X2), Rx("v2", Mul(k2, x2), X2X1)>>,
              ss |-> NoSS, cons |-> <<>>,
-             init |-> ("x1" :> Mul(Sym("frac"), Sym("T"))) @@ ("x2" :> Sub(Sym("T"), x1))]
+             init |-> ("x1" :> Mul(Sym("frac"), Sym("T"))) @@ ("x2" :> Sub(Sym("T"), x1)), vals |-> <<>>]
+      [] n = "iac" ->    \* the mass-action loop with the same assignment rules: it has a closed-form steady state, so the
+                         \* response coefficients can be asked of a model that HOLDS ASSIGNMENT RULES.  Supplied state:
+                         \* the conserved total Tot is a constant; variables=None: the search starts from the model's
+                         \* own initial state, a function of the parameters (Tot = x1(0) + x2(0) = T), see NetM.
+            [vars |-> <<"x1", "x2">>, pars |-> <<"k1", "k2", "T", "frac">>,
+             rxns |-> <<Rx("v1", Mul(k1, x1), X1X2), Rx("v2", Mul(k2, x2), X2X1)>>,
+             ss |-> ("x1" :> Div(Mul(Sym("Tot"), k2), Add(k1, k2))) @@ ("x2" :> Div(Mul(Sym("Tot"), k1), Add(k1, k2))),
+             cons |-> <<[name |-> "Tot", members |-> <<"x1", "x2">>]>>,
+             init |-> ("x1" :> Mul(Sym("frac"), Sym("T"))) @@ ("x2" :> Sub(Sym("T"), x1)), vals |-> <<>>]
+      [] n = "sgn" ->    \* SIGNED values: the rate k1 x1 + g x2 has a NEGATIVE parameter g (x2 inhibits its own formation;
+                         \* the steady state stays stable: trace -k1 + g - k2 < 0, determinant k1 k2 > 0) and the state
+                         \* may hold a negative x2: every difference quotient must be divided by the SIGNED step 2 h p
+            [vars |-> <<"x1", "x2">>, pars |-> <<"kin", "k1", "g", "k2">>,
+             rxns |-> <<Rx("v0", kin, In1), Rx("v1", Add(Mul(k1, x1), Mul(Sym("g"), x2)), X1X2), Rx("v2", Mul(k2, x2), Out2)>>,
+             ss |-> ("x1" :> Div(Sub(kin, Div(Mul(Sym("g"), kin), k2)), k1)) @@ ("x2" :> Div(kin, k2)),
+             cons |-> <<>>, init |-> <<>>,
+             vals |-> ("g" :> {R(0 - 1, 2), R(0 - 1, 4)}) @@ ("x2" :> {RInt(0 - 1), RInt(3)})]
       [] n = "pl" ->     \* power laws of several orders (no closed-form steady state: elasticities only)
             [vars |-> <<"x1", "x2">>, pars |-> <<"kin", "k1", "k2", "k3">>,
              rxns |-> <<Rx("v0", kin, In1), Rx("v1", Mul(k1, Pow(x1, 2)), X1X2), Rx("v2", Mul(Mul(k2, x1), x2), Out2),
                         Rx("v3", Mul(Pow(k3, 2), x2), Out2), Rx("v4", Div(Mul(k1, x1), x2), Out1),
                         Rx("v5", Mul(Mul(k1, k2), Pow(x2, 3)), Out2)>>,
-             ss |-> NoSS, cons |-> <<>>, init |-> <<>>]
+             ss |-> NoSS, cons |-> <<>>, init |-> <<>>, vals |-> <<>>]
 
 \* values per symbol (all positive; rate constants >= 1/2 keep the networks fast-relaxing)
 ValsOf(s) == CASE Grid = "full"  -> IF s = "frac" THEN {R(1, 4), R(1, 2), R(3, 4)} ELSE {R(1, 2), RInt(1), RInt(2), RInt(3)}
@@ -82,7 +99,8 @@ ValsOf(s) == CASE Grid = "full"  -> IF s = "frac" THEN {R(1, 4), R(1, 2), R(3, 4
                                     ELSE IF s = "kin" THEN {R(1, 2), RInt(2)} ELSE {RInt(1), RInt(3)}
 \* variables with an assignment rule are not free: their value is the rule's value at the parameters (and earlier variables)
 Syms(net) == IF DOMAIN net.init = {} THEN net.vars \o net.pars ELSE net.pars \o net.vars
-ValsAt(net, s, e) == IF s \in DOMAIN net.init THEN {Eval(net.init[s], e)} ELSE ValsOf(s)
+ValsAt(net, s, e) == IF s \in DOMAIN net.init THEN {Eval(net.init[s], e)}
+                     ELSE IF s \in DOMAIN net.vals THEN net.vals[s] ELSE ValsOf(s)
 
 Init == nm \in Nets /\ env = <<>> /\ ph = "build"
 Next == /\ ph = "build"
@@ -133,6 +151,22 @@ TotalDiffers == (Done /\ nm = "ia") =>
 \* the state of such a point IS the model's initial state
 InitIsState == Done => \A x \in DOMAIN N.init : env[x] = Eval(N.init[x], env)
 
+\* the network as seen with variables=None when its initial values are assignment rules: every conserved total is the
+\* sum of the members' rules (fully substituted: an expression in the parameters), so the steady state responds to
+\* the parameters the rules read
+FullInit(x) == Subst(Subst(N.init[x], N.init), N.init)
+TotExpr(c) == LET m == (CHOOSE y \in Range(N.cons) : y.name = c).members
+              IN  IF Len(m) = 2 THEN Add(FullInit(m[1]), FullInit(m[2])) ELSE FullInit(m[1])
+HasM == HasSS(N) /\ DOMAIN N.init # {} /\ N.cons # <<>>
+NetM == [N EXCEPT !.ss = [x \in DOMAIN N.ss |->
+                            Subst(N.ss[x], [c \in {N.cons[i].name : i \in 1..Len(N.cons)} |-> TotExpr(c)])]]
+\* at the point the two views have the same steady state (the state IS the model's initial state) ...
+MSameState == (Done /\ HasM) => \A x \in VarSet : SSValue(NetM, x, PEnv) = SSValue(N, x, PEnv)
+\* ... but not the same sensitivities
+MDiffers == (Done /\ HasM) => \E x \in VarSet, q \in ParSet : ConcRC(NetM, x, q, PEnv) # ConcRC(N, x, q, PEnv)
+\* negative values really occur, with non-zero coefficients attached
+SignedWitness == (Done /\ nm = "sgn") => (RLt(env["g"], RZero) /\ ~RIsZero(Unscaled(N, "v1", "g", env)))
+
 Table(rows, cols, F(_, _)) == [a \in rows |-> [b \in cols |-> F(a, b)]]
 
 Emit == (EmitOn /\ Done) =>
@@ -155,5 +189,15 @@ Emit == (EmitOn /\ Done) =>
          qcu |-> IF HasSS(N) THEN Table(ParSet, VarSet, LAMBDA q, x : ConcQ(N, x, q, PEnv, HQ)) ELSE <<>>,
          qcs |-> IF HasSS(N) THEN Table(ParSet, VarSet, LAMBDA q, x : ConcQs(N, x, q, PEnv, HQ)) ELSE <<>>,
          qfu |-> IF HasSS(N) THEN Table(ParSet, RxnSet, LAMBDA q, r : FluxQ(N, r, q, PEnv, HQ)) ELSE <<>>,
-         qfs |-> IF HasSS(N) THEN Table(ParSet, RxnSet, LAMBDA q, r : FluxQs(N, r, q, PEnv, HQ)) ELSE <<>>]) \o "@E@")
+         qfs |-> IF HasSS(N) THEN Table(ParSet, RxnSet, LAMBDA q, r : FluxQs(N, r, q, PEnv, HQ)) ELSE <<>>,
+         \* the same tables for variables=None on a model whose initial values are assignment rules (NetM)
+         hasm |-> HasM,
+         rcu_m |-> IF HasM THEN Table(ParSet, VarSet, LAMBDA q, x : ConcRC(NetM, x, q, PEnv)) ELSE <<>>,
+         rcs_m |-> IF HasM THEN Table(ParSet, VarSet, LAMBDA q, x : ConcRCs(NetM, x, q, PEnv)) ELSE <<>>,
+         rfu_m |-> IF HasM THEN Table(ParSet, RxnSet, LAMBDA q, r : FluxRC(NetM, r, q, PEnv)) ELSE <<>>,
+         rfs_m |-> IF HasM THEN Table(ParSet, RxnSet, LAMBDA q, r : FluxRCs(NetM, r, q, PEnv)) ELSE <<>>,
+         qcu_m |-> IF HasM THEN Table(ParSet, VarSet, LAMBDA q, x : ConcQ(NetM, x, q, PEnv, HQ)) ELSE <<>>,
+         qcs_m |-> IF HasM THEN Table(ParSet, VarSet, LAMBDA q, x : ConcQs(NetM, x, q, PEnv, HQ)) ELSE <<>>,
+         qfu_m |-> IF HasM THEN Table(ParSet, RxnSet, LAMBDA q, r : FluxQ(NetM, r, q, PEnv, HQ)) ELSE <<>>,
+         qfs_m |-> IF HasM THEN Table(ParSet, RxnSet, LAMBDA q, r : FluxQs(NetM, r, q, PEnv, HQ)) ELSE <<>>]) \o "@E@")
 =============================================================================
